@@ -97,10 +97,11 @@ type Mem struct {
 	cells map[string]string
 	ghost map[string]string
 	cellT map[string]types.Type
+	ptrs  map[string]Val // cells of pointer type currently holding an interior address
 }
 
 func NewMem() *Mem {
-	return &Mem{heaps: map[string]string{}, cells: map[string]string{}, ghost: map[string]string{}, cellT: map[string]types.Type{}}
+	return &Mem{heaps: map[string]string{}, cells: map[string]string{}, ghost: map[string]string{}, cellT: map[string]types.Type{}, ptrs: map[string]Val{}}
 }
 
 func (m *Mem) clone() *Mem {
@@ -117,6 +118,9 @@ func (m *Mem) clone() *Mem {
 	for k, v := range m.cellT {
 		n.cellT[k] = v
 	}
+	for k, v := range m.ptrs {
+		n.ptrs[k] = v
+	}
 	return n
 }
 
@@ -124,6 +128,9 @@ func (m *Mem) clone() *Mem {
 // non-struct heap for sort srt) and makes sure its initial constant exists.
 func (s *Sess) heapKeyField(sn string, st *types.Struct, i int) string {
 	k := "H_" + sn + "_" + st.Field(i).Name()
+	if _, ok := s.g.heapReg[k]; !ok {
+		s.g.heapReg[k] = func(s2 *Sess) { s2.heapKeyField(sn, st, i) }
+	}
 	if _, ok := s.heapSort[k]; !ok {
 		hs := "(Array Int " + s.sortOf(st.Field(i).Type()) + ")"
 		s.heapSort[k] = hs
@@ -138,6 +145,9 @@ func (s *Sess) heapKeyField(sn string, st *types.Struct, i int) string {
 func (s *Sess) heapKeyPlain(t types.Type) string {
 	srt := s.sortOf(t)
 	k := "H__" + sortID(srt)
+	if _, ok := s.g.heapReg[k]; !ok {
+		s.g.heapReg[k] = func(s2 *Sess) { s2.heapKeyPlain(t) }
+	}
 	if _, ok := s.heapSort[k]; !ok {
 		hs := "(Array Int " + srt + ")"
 		s.heapSort[k] = hs
@@ -316,7 +326,7 @@ func (s *Sess) store(m *Mem, a *Addr, v string) (modified []string) {
 				fsort := s.sortOf(st.Field(a.Steps[0].Field).Type())
 				nv = s.name("sv", fsort, nv)
 				m.heaps[k] = s.name("h", s.heapSort[k], "(store "+h+" "+a.Ref+" "+nv+")")
-				return []string{k}
+				return []string{k + "@" + a.Ref}
 			}
 			if len(a.Steps) > 0 {
 				panic("store: non-field step on struct root")
@@ -327,7 +337,7 @@ func (s *Sess) store(m *Mem, a *Addr, v string) (modified []string) {
 				k := s.heapKeyField(sn, st, i)
 				h := s.heapGet(m, k)
 				m.heaps[k] = s.name("h", s.heapSort[k], "(store "+h+" "+a.Ref+" ("+fieldAcc(sn, st, i)+" "+v+"))")
-				modified = append(modified, k)
+				modified = append(modified, k+"@"+a.Ref)
 			}
 			return modified
 		}
@@ -336,7 +346,7 @@ func (s *Sess) store(m *Mem, a *Addr, v string) (modified []string) {
 		nv := s.writeSteps("(select "+h+" "+a.Ref+")", a.Steps, v)
 		nv = s.name("sv", s.sortOf(a.RootT), nv)
 		m.heaps[k] = s.name("h", s.heapSort[k], "(store "+h+" "+a.Ref+" "+nv+")")
-		return []string{k}
+		return []string{k + "@" + a.Ref}
 	default:
 		x, ok := m.cells[a.Cell]
 		if !ok {
@@ -414,7 +424,7 @@ func (s *Sess) mergeMem(guards []string, mems []*Mem) *Mem {
 	}
 	mergeMap(func(m *Mem) map[string]string { return m.cells }, func(k string) string { return s.cellInit(k, out.cellT[k]) },
 		func(k string) string { return s.sortOf(out.cellT[k]) }, out.cells)
-	mergeMap(func(m *Mem) map[string]string { return m.ghost }, func(k string) string { return "G0_" + k },
+	mergeMap(func(m *Mem) map[string]string { return m.ghost }, func(k string) string { return s.ghostGet(&Mem{ghost: map[string]string{}}, k, s.g.ghostSort(k)) },
 		func(k string) string { return s.g.ghostSort(k) }, out.ghost)
 	return out
 }
